@@ -115,7 +115,10 @@ def ref_send_net(self, buf, ask_no_ack, force_retry, send_only):
     ok = oracle_int(0, 1)
     hw.set_ce(True)
     hw.tx_n = ite(ok == 1, 0, 1)
-    hw.reg[7] = (hw.reg[7] & 0x40) | ite(ok == 1, 0x20, 0x10)
+    # the RX_DR latch (write() clears all three flags) and OBSERVE_TX are whatever they end up as: the real body is
+    # proved to stay within exactly this freedom (C02.send.simulates_net_abstraction)
+    hw.reg[7] = (oracle_int(0, 1) * 0x40) | ite(ok == 1, 0x20, 0x10)
+    hw.reg[8] = oracle_int(0, 255)
     self._in[0] = hw.status()
     return ok == 1
 
@@ -130,7 +133,8 @@ def ref_resend_net(self, send_only):
     ok = oracle_int(0, 1)
     hw.set_ce(True)
     hw.tx_n = ite(ok == 1, 0, hw.tx_n)
-    hw.reg[7] = (hw.reg[7] & 0x40) | ite(ok == 1, 0x20, 0x10)
+    hw.reg[7] = (oracle_int(0, 1) * 0x40) | ite(ok == 1, 0x20, 0x10)   # C02.resend.simulates_net_abstraction
+    hw.reg[8] = oracle_int(0, 255)
     self._in[0] = hw.status()
     return ok == 1
 
